@@ -12,7 +12,8 @@ Requests:
       -> {"e":name,"phase":"init"}
        | {"steps":[{"idx":[ints]|{"e":name}, "e":name}                     (fill raised; state kept)
                  |{"idx":.., "chg":[[[index],new],..], "oor":int},..],
-          "bins":nested, "oor":int, "nev":int, "nev_in":int}
+          "bins":nested, "oor":int, "nev":int, "nev_in":int,
+          "all":{"e":name}|{"bins":nested,"oor":int}}        (`fillAll`: the whole sequence, first exception ends it)
   {"op":"elem","edges":..,"bins":..,"init":int,"one":int,
    "vals":[{"c":..,"ctx":int|null,"g":..},..]}
       -> {"e":name,"phase":"init"} | {"e":name,"phase":"fill"} | {"bins":nested,"oor":int,"ctx":int|null} -/
@@ -81,6 +82,15 @@ def runFills (h : Hist Int Int) : List Json → Option (List Json × Hist Int In
       let (steps, hf) ← runFills h' rest
       some (Json.mkObj [("idx", idx), ("chg", diffCells h.bins h'.bins), ("oor", ofInt h'.nOut)] :: steps, hf)
 
+def parseOps : List Json → Option (List ((Nat → Nat → Nat → Int) × Coord Int × Int))
+  | [] => some []
+  | f :: rest => do
+    let c ← parseCoord (getD f "c")
+    let w ← int? (getD f "w")
+    let tab ← parseTab (getD f "g")
+    let r ← parseOps rest
+    some ((guessN tab, c, w) :: r)
+
 def parseVals : List Json → Option (List ((Nat → Nat → Nat → Int) × Coord Int × Option Int))
   | [] => some []
   | f :: rest => do
@@ -105,11 +115,14 @@ def handle (j : Json) : Json :=
       match mkHist edges bins init with
       | .error e => Json.mkObj [("e", exc e), ("phase", "init")]
       | .ok h =>
-        match runFills h fills.toList with
-        | none => err "bad fills"
-        | some (steps, hf) =>
+        match runFills h fills.toList, parseOps fills.toList with
+        | some (steps, hf), some ops =>
+          let all := match fillAll h ops with
+            | .error e => Json.mkObj [("e", exc e)]
+            | .ok ha => Json.mkObj [("bins", narrJson ha.bins), ("oor", ofInt ha.nOut)]
           Json.mkObj [("steps", Json.arr steps.toArray), ("bins", narrJson hf.bins), ("oor", ofInt hf.nOut),
-                      ("nev", ofInt (getNevents hf true)), ("nev_in", ofInt (getNevents hf false))]
+                      ("nev", ofInt (getNevents hf true)), ("nev_in", ofInt (getNevents hf false)), ("all", all)]
+        | _, _ => err "bad fills"
     | _, _, _, _ => err "bad hist args"
   | some "elem" =>
     match parseEdges (getD j "edges"), parseBins (getD j "bins"), int? (getD j "init"), int? (getD j "one"),
